@@ -90,15 +90,8 @@ def run(ctx):
     closure = cg.reachable([validate], STRONG_KINDS)
     scope = [f for f in closure if f.module.name.startswith(("hed.validator", "hed.models"))]
     ctx.floor("R7.3", "functions in closure", len(scope), 60)
-    n = check_nullable(ctx, "R7.3", scope, named_sources(ctx), "frozen nullable table", xref=default_unit_xref)
+    n = check_nullable(ctx, "R7.3", scope, named_sources(ctx), "frozen nullable table")
     ctx.floor("R7.3", "nullable sources met", n, 5)
-
-
-def default_unit_xref(fi, node):
-    """`self.default_unit` inside value_as_default_unit is absent only for a tag with several unit
-    classes or a unit class without default units; no bundled schema has one, and the Delay/Duration
-    tags this closure converts have exactly one class with a default: cross-reference, not a verdict."""
-    return fi.short == "HedTag.value_as_default_unit" and isinstance(node, ast.Attribute) and node.attr == "default_unit"
 
 
 def _adj_locals(validate):
